@@ -72,7 +72,7 @@ CHECKS = {
         technique='TLA+ two-layer spec: structured big-step meaning (BareCore.ExecBlock) vs lowering + jump machine '
                   '(BareLower.Lower, BareCore.Run); TLC equivalence model checking over the exhaustive program family '
                   '(MC_Struct) + TLC trace validation of real parse_script+execute_script runs against ExecBlock (Trace_Struct)',
-        text='TLC checks on every program of StructFamily (all chains of the 11 positioned constructs x loop tails x contexts, '
+        text='TLC checks on every program of StructFamily (all chains of the 13 positioned constructs - 8 if forms, while, for, nested loops, value-conditioned while - x loop tails x 7 contexts incl. functions defined inside blocks, '
              'depth 2; depth 3 in the thorough tier) x inputs that the structured meaning and the jump machine on the lowering '
              'agree on result, probe sequence and globals. Every program of the family under a covering input set, and random '
              'programs to depth 5 with up to 3 functions, are rendered to source text, parsed and executed by the real code; '
@@ -153,8 +153,8 @@ CHECKS = {
         text='The abstraction maps host int and float spellings of an integral number to one abstract number, so the '
              'specification cannot express a difference. Every library function except clock/random/fetch/log is called with '
              'argument lists generated from its own argument model (index, count, size, radix and digit parameters at their '
-             'boundaries; values of all types, also inside containers), once with ints and once with floats, through '
-             'execute_script; TLC judges each twin. Modelled functions are additionally called from rendered source text '
+             'boundaries; values of all types, also inside containers), with ints, with floats and with a mixed spelling (fresh int objects), through '
+             'execute_script; TLC judges each triple. Modelled functions are additionally called from rendered source text '
              '(number literals are parser floats) and validated against BareCore.',
         note='For functions without a functional model TLC contributes only the equality under the abstraction (a differential '
              'comparison whose comparator is the specification\'s abstraction), as stated in DESIGN.md.',
@@ -222,7 +222,7 @@ CHECKS = {
              'date-like invalid text such as 2024-02-30) and read by the real dataParseCSV. TLC evaluates the relational meaning '
              '(categories = equality under Compare, left-major join with fresh right names, aggregates over non-null values, '
              'order rules) on the recorded inputs and outputs, evaluating row expressions with the specification\'s own evaluator. '
-             'dataSort is judged in C11.',
+             'dataSort calls (multi-key, directions, python-equal values of different types) are judged with the Compare preorder (Trace_Compare: sorted, stable, a permutation).',
         note='stddev and non-dyadic averages are judged at type level only; whether unmatched left rows are kept is an allowed '
              'set (the isLeftJoin flag is pinned by the suite in the opposite sense of its documentation); CSV cells contain no '
              'line breaks or leading blanks.',
